@@ -234,6 +234,16 @@ pub fn will_spawn() {
         return;
     }
     let mut g = lock();
+    // two spawns without a schedule point in between (timer, then search): wait until the earlier child has
+    // registered, so that thread indices do not depend on OS timing
+    loop {
+        match g.as_ref() {
+            Some(s) if s.active && s.expected_spawns > 0 => {
+                g = CV.wait(g).unwrap_or_else(|e| e.into_inner());
+            }
+            _ => break,
+        }
+    }
     if let Some(s) = g.as_mut() {
         if s.active {
             s.expected_spawns += 1;
@@ -301,6 +311,9 @@ impl Drop for ThreadScope {
         if let (Some(s), Some(me)) = (g.as_mut(), me) {
             if me < s.threads.len() {
                 s.threads[me].finished = true;
+                if s.record_events {
+                    s.events.push((me, "exit"));
+                }
                 s.threads[me].panicked = std::thread::panicking();
                 s.threads[me].park = None;
                 if s.current == Some(me) {
@@ -397,7 +410,14 @@ impl Iterator for Lines {
             park(Park::Input, "stdin");
             let mut g = lock();
             return match g.as_mut() {
-                Some(s) => s.input.pop_front().map(Ok),
+                Some(s) => {
+                    let l = s.input.pop_front();
+                    if let Some(l) = &l {
+                        // consumption marker in the ordered transcript (thread id usize::MAX)
+                        s.transcript.push((usize::MAX, l.clone()));
+                    }
+                    l.map(Ok)
+                }
                 None => None,
             };
         }
